@@ -50,7 +50,7 @@ def servers_with_env(marker):
 
 
 class Server:
-    def __init__(self, sccache, root, port, direct):
+    def __init__(self, sccache, root, port, direct, pp_options=None):
         self.sccache = sccache
         self.cache = os.path.join(root, 'cache')
         self.port = port
@@ -62,6 +62,17 @@ class Server:
             'SCCACHE_DIRECT': 'true' if direct else 'false', 'SCCACHE_CACHE_SIZE': '200M',
         }
         os.makedirs(self.base_env['TMPDIR'], exist_ok=True)
+        self.marker = 'SCCACHE_DIR=' + self.cache
+        if pp_options is not None:
+            # options of [cache.disk.preprocessor_cache_mode] only take effect when NO disk-cache variable is in the environment
+            conf = os.path.join(root, 'sccache.conf')
+            with open(conf, 'w') as fh:
+                fh.write('[cache.disk]\ndir = "%s"\nsize = 209715200\n\n[cache.disk.preprocessor_cache_mode]\n'
+                         'use_preprocessor_cache_mode = %s\n%s' % (self.cache, 'true' if direct else 'false', pp_options))
+            for k in ('SCCACHE_DIR', 'SCCACHE_DIRECT', 'SCCACHE_CACHE_SIZE'):
+                del self.base_env[k]
+            self.base_env['SCCACHE_CONF'] = conf
+            self.marker = 'SCCACHE_CONF=' + conf
 
     def env(self, extra=None):
         e = dict(self.base_env)
@@ -88,7 +99,7 @@ class Server:
         run([self.sccache, '--stop-server'], '/', self.env(), 60)
 
     def kill_leftovers(self):
-        for pid in servers_with_env('SCCACHE_DIR=' + self.cache):
+        for pid in servers_with_env(self.marker):
             try:
                 os.kill(pid, 9)
             except OSError:
@@ -338,9 +349,17 @@ def preprocess_failure_class(direct, wrapped):
         return False
     import re
     summary = re.compile(rb'^\d+ (warning|error)s?( and \d+ (warning|error)s?)? generated\.$')
-    sgr = re.compile(rb'\x1b\[[0-9;]*m')
-    dl = [l for l in direct[2].split(b'\n') if not summary.match(sgr.sub(b'', l))]
-    if any(l not in dl for l in wrapped[2].split(b'\n') if not summary.match(sgr.sub(b'', l))):
+    sgr = re.compile(rb'\x1b\[[0-9;]*[mK]')
+
+    def nl(l):
+        # the -E run reports driver-level remarks with their own severity (a warning that -Werror promotes only in the real
+        # compile) and numbers the `<command line>` buffer differently (finding C01-S37)
+        l = sgr.sub(b'', l)
+        l = re.sub(rb'<(command line|built-in)>:\d+', rb'<\1>:N', l)
+        l = re.sub(rb' \[-Werror[^\]]*\]$', b'', l.replace(b'error: ', b'warning: '))
+        return l
+    dl = [nl(l) for l in direct[2].split(b'\n') if not summary.match(sgr.sub(b'', l))]
+    if any(nl(l) not in dl for l in wrapped[2].split(b'\n') if not summary.match(sgr.sub(b'', l))):
         return False
     for k in set(direct[3]) | set(wrapped[3]):
         x, y = direct[3].get(k, 'absent'), wrapped[3].get(k, 'absent')
@@ -760,22 +779,22 @@ def run_history(hid, rng, sccache, model_fn, port, verdict, n_ops, known_ids):
                     a = [x for x in base if x not in ('-c', '-MD', '-MMD', '-o', 'out.o', 'sub/out.o', 'sub/other.o', '-oout.o')] + ['-M']
                 else:
                     a = [x for x in base if x != '-c' and not x.endswith('.o') and x != '-o'] + ['-fsyntax-only']
-                do_compile('pass-through ' + which, args=a, expect_known='C01-S41' if which == 'rsp_bs' else None)
+                do_compile('pass-through ' + which, args=a)
             elif op == 'known':
-                which = rng.choice(['C01-S21', 'C01-S23', 'C01-S24', 'C01-S33', 'C01-S41'])
+                which = rng.choice(['C01-S21', 'C01-S23', 'C01-S24', 'C01-S33', 'rsp-backslash'])
                 if which == 'C01-S21':
                     a = ['-c', fl.src, '-Iinc', '-Iinc2', '-x', 'c++' if not cxx else 'c', '-o', 'k.o']
                 elif which == 'C01-S23':
                     a = ['-c', fl.src, '-Iinc', '-Iinc2', '-MT', 'x', '-o', 'k.o']
                 elif which == 'C01-S33':
                     a = ['-c', fl.src, '-Iinc', '-Iinc2', '-DWARN', '-Wall', '-Werror', '-o', 'k.o']
-                elif which == 'C01-S41':
+                elif which == 'rsp-backslash':        # regression of the repaired C01-S41: must now be transparent
                     clock[0] += 1
                     write_file(tree, 'k.rsp', ('-DNAME=\\4 -Iinc -Iinc2 -c %s -o k.o\n' % fl.src).encode(), clock[0])
                     a = ['@k.rsp']
                 else:
                     a = ['-c', fl.src, '-Iinc', '-Iinc2', '-o', 'k.o', '-I']
-                do_compile('witness of ' + which, args=a, expect_known=which)
+                do_compile('witness of ' + which, args=a, expect_known=which if which.startswith('C01-') else None)
     finally:
         try:
             srv.stop()
@@ -871,15 +890,24 @@ def scenario_two_build_dirs(sid, sccache, port, verdict, known_ids, compiler):
     write_file(root, 'b1/config.h', b'#define CFG 1\n', 2)
     write_file(root, 'b2/config.h', b'#define CFG 2\n', 3)
     verdict.count('scenario.two-build-dirs')
-    for direct_mode in (True, False):
-        srv = Server(sccache, os.path.join(root, 'pp' if direct_mode else 'nopp'), port, direct_mode)
-        tag = '%s %s' % (compiler, 'pp-cache' if direct_mode else 'no-pp-cache')
+    for direct_mode, opts in ((True, None), (False, None), (True, 'hash_working_directory = true\n'), (True, 'hash_working_directory = false\n')):
+        sub = ('pp' if direct_mode else 'nopp') + ('' if opts is None else '-' + opts.split()[-1])
+        os.makedirs(os.path.join(root, sub))
+        srv = Server(sccache, os.path.join(root, sub), port, direct_mode, opts)
+        control = opts is not None and 'false' in opts
+        tag = '%s %s%s' % (compiler, 'pp-cache' if direct_mode else 'no-pp-cache', '' if opts is None else ' ' + opts.strip())
         srv.start()
         try:
             for bd in ('b1', 'b1', 'b2', 'b1'):
                 d, w = _both(srv, sccache, compiler, ['-I.', '-c', src, '-o', 'a.o'], os.path.join(root, bd))
+                if control:
+                    # documented-unsafe setting ("adds the current working directory in the hash" switched off): the stale
+                    # object of the other directory is what the option asks for; recorded, not judged
+                    verdict.requests += 1
+                    verdict.count('control.hash_working_directory=false.' + ('stale' if describe_diff(d, w) else 'equal'))
+                    continue
                 _compare(verdict, tag, compiler, ['-I.', '-c', src, '-o', 'a.o'], d, w, 'build directory %s' % bd, known_ids,
-                         expect_known='C01-S38' if direct_mode else None, replay={'scenario': 'two_build_dirs', 'sid': sid, 'compiler': compiler})
+                         replay={'scenario': 'two_build_dirs', 'sid': sid, 'compiler': compiler})
         finally:
             srv.stop()
             srv.kill_leftovers()
@@ -917,15 +945,10 @@ def scenario_device_output(sid, sccache, port, verdict, known_ids, compiler):
             kinds.append((rc, stat.S_ISCHR(os.lstat(node).st_mode)))
         verdict.requests += 2
         if ok_direct and not all(k for _, k in kinds):
-            fid = 'C01-S40'
-            if fid in known_ids:
-                verdict.known[fid] = verdict.known.get(fid, 0) + 1
-            else:
+            if True:
                 verdict.violations.append(('transparency', '%s %s: the output is a character device; the direct compile writes into it, the wrapped one '
                                            'replaces the device node by a regular file (%r)' % (compiler, ' '.join(args), kinds),
                                            {'scenario': 'device_output', 'sid': sid, 'compiler': compiler}))
-        elif ok_direct:
-            verdict.count('known-not-reproduced.C01-S40')
     finally:
         srv.stop()
         srv.kill_leftovers()
